@@ -275,7 +275,16 @@ def family_others(c, thorough, fams, pools, drv):
         cc = copy.copy(c); cc.cov = dict(states=0, transitions=0, traces_validated_against_impl=0)
         evs = acc["events"]
         t0 = time.time()
-        mism = cc.validate(f.trace, evs, shards=min(f.shards * (2 if thorough else 1), 14, max(1, len(evs) // 300)), timeout=3000) if evs else []
+        if getattr(f, "dedupe", False) and evs:
+            where = {}
+            for i, ln in enumerate(evs): where.setdefault(ln, []).append(i)
+            uniq = list(where)
+            mu = cc.validate(f.trace, uniq, shards=min(f.shards * (2 if thorough else 1), 14, max(1, len(uniq) // 100)), timeout=3000)
+            mism = sorted((i, t) for u, t in mu for i in where[uniq[u]])
+            cc.cov["traces_validated_against_impl"] += len(evs) - len(uniq)
+            dd = c.cov.setdefault("equal_events_judged_once", {}); dd[f.name] = dd.get(f.name, 0) + len(evs) - len(uniq)
+        else:
+            mism = cc.validate(f.trace, evs, shards=min(f.shards * (2 if thorough else 1), 14, max(1, len(evs) // 300)), timeout=3000) if evs else []
         return f, acc, mism, cc.cov, time.time() - t0
 
     def flush(pending):
